@@ -6,3 +6,18 @@ CHECKS = {
   "note": "Trusts vlib.sx.read as the specification of the parenthesis structure (self-tested by render/read round trips). Lone-CR line ends and bare-atom inputs are not judged.",
  },
 }
+CHECKS["C06"] = {
+  "technique": "runtime monitor of is_sub_type / hierarchy graph / problem type checks / quantifier ranges vs edge-list closure; all forests <= 4 types x permuted and regrouped declarations",
+  "text": "For every labelled type forest with <= 4 types (sampled in quick, all in thorough) and random deeper ones, under permutations and regroupings of the declaration lines, the parsed domain's is_sub_type answers for all pairs, the hierarchy graph's reachability, accept/reject of problem facts, fluents and constant arguments for every (object type, required type) pair and the objects ranged over by forall effects and forall preconditions are compared with the reflexive-transitive closure of the edge list. Exploration: held on the renderings observed.",
+  "note": "Trusts the generator's edge list and its closure. Constants are kept out of quantified types. Sizes: exhaustive to 4 types, random to 8 types / depth 4.",
+}
+CHECKS["C02"] = {
+  "technique": "runtime monitor on Operator.is_applicable vs reference formula evaluator on covering states; bounded-exhaustive formula sweep + random formulas",
+  "text": "Every is_applicable call of the workload is compared with the reference model's truth value of the same precondition text in an independently known state: random formulas of the supported fragment (and/or nesting, negative literals, (in)equalities, numeric comparisons, forall with and/or bodies, empty bodies) for sampled type-correct calls (repeated objects, constants) on covering states - all 2^k assignments of the atoms the instance can depend on when k <= 7/8 - plus, in the thorough tier, a bounded-exhaustive sweep of (and c1 [c2]) formulas over a 10-leaf alphabet in a 3-object universe with a subtype object and a constant. Exceptions are refusals (tolerated, counted). Exploration, not proof.",
+  "note": "Trusts refpddl.holds (validated against shipped planner plans and a second evaluation strategy). Numeric cases stay on a dyadic grid away from the comparison tolerance; constants never inhabit quantified types; universes of <= 4 objects.",
+}
+CHECKS["C03"] = {
+  "technique": "runtime monitor on Operator.apply vs reference successor function, under injected iteration orders of the library's hash sets (PermSet) and a PYTHONHASHSEED sweep",
+  "text": "Every model-applicable (action, call, state) of the workload is applied by the real Operator under the natural order and under k injected permutations of all set-valued collections of the schema and grounded operator (4 quick / 24 thorough, plus 8 hash seeds in thorough); the serialised successor is re-read independently and must equal the reference successor (delete-then-add, conditions and right-hand sides evaluated in the pre-state, frame unchanged). Workload: add/delete, assign/increase/decrease whose right-hand sides read fluents written by other effects, when with literal/numeric/equality conditions, forall-when over types with subtypes, on covering states. Inconsistent effect sets are outside the quantifier and skipped. Exploration.",
+  "note": "Trusts refpddl.successor (validated on shipped planner plans and a STRIPS differential) and that PermSet is a behaviour-preserving set subtype. Sets created and consumed inside one call are only varied by the hash-seed sweep. Fluents of arity <= 2.",
+}
